@@ -37,10 +37,10 @@ var defaultCls = map[string]map[string]int{
 	"confirm":       {"current": 40, "used": 8, "superseded": 8, "otheracct": 8, "bitflip": 8, "trunc": 4, "extend": 4, "trailing": 6, "stored": 6, "empty": 3, "garbage": 5},
 	"oauth_cb":      {"own": 50, "empty": 6, "otherbrowser": 12, "spent": 12, "prefix": 5, "extended": 5, "caseflip": 5, "garbage": 5},
 	"oauth_cb2":     {"validcode": 70, "badcode": 10, "othercode": 8, "error": 12},
-	"totp_validate": {"ok": 40, "wrong": 12, "othertotp": 10, "stale": 8, "empty": 5, "emptysecret": 3, "recovery": 10, "recovery_spent": 5, "recovery_other": 5, "recovery_hash": 5},
+	"totp_validate": {"ok": 40, "wrong": 12, "othertotp": 10, "stale": 8, "empty": 5, "emptysecret": 3, "blank": 2, "recovery": 10, "recovery_spent": 5, "recovery_other": 5, "recovery_hash": 5},
 	"totp_confirm":  {"ok": 60, "wrong": 20, "othertotp": 10, "empty": 10},
 	"totp_remove":   {"ok": 40, "wrong": 15, "othertotp": 10, "stale": 5, "empty": 5, "recovery": 10, "recovery_spent": 5, "recovery_other": 5, "recovery_hash": 5},
-	"sms_validate":  {"ok": 35, "wrong": 10, "lastsms": 12, "ownsms": 10, "empty": 10, "sessionsecret": 3, "recovery": 8, "recovery_spent": 4, "recovery_other": 4, "recovery_hash": 4},
+	"sms_validate":  {"ok": 35, "wrong": 10, "lastsms": 12, "ownsms": 10, "empty": 10, "sessionsecret": 3, "blank": 3, "recovery": 8, "recovery_spent": 4, "recovery_other": 4, "recovery_hash": 4},
 	"sms_confirm":   {"ok": 50, "wrong": 15, "lastsms": 15, "ownsms": 10, "empty": 10},
 	"sms_remove":    {"ok": 35, "wrong": 10, "lastsms": 12, "ownsms": 10, "empty": 10, "recovery": 8, "recovery_spent": 5, "recovery_other": 5, "recovery_hash": 5},
 	"sms_setup":     {"own": 50, "other": 20, "fresh": 20, "empty": 10},
